@@ -183,10 +183,12 @@ inductive BlobFetch (σ : Type) where
   | single (id : σ) (blob : Option BlobState)   -- url names one blob; `none` = it does not exist
 deriving Repr
 
+/-- one poll of one configured bucket.  The provider keeps one `BucketState` per bucket id and the id is part of the
+source of every rule set loaded from the bucket: `bucket` tells which sources belong to the polled bucket -/
 structure BlobEvent (σ : Type) where
-  fetch : BlobFetch σ
-  rej   : List σ
-deriving Repr
+  bucket : σ → Bool
+  fetch  : BlobFetch σ
+  rej    : List σ
 
 /-- `FetchRuleSets`: the rule sets handed to `ruleSetsUpdated`; `(id, none)` stands for a blob that exists but cannot be
 used (its rule set, if loaded, is neither removed nor replaced).  `none` = nothing usable at all, poll aborted. -/
@@ -232,9 +234,10 @@ def blobStep (st : St σ) (e : BlobEvent σ) : Out σ :=
     | .cancelled => .quiet st
     | _ => .failed st
   | some rss =>
-    if rss.isEmpty && st.book.isEmpty then .quiet st
+    -- `getBucketState`: what is remembered for this bucket; other buckets are not looked at
+    let old := st.book.keys.filter e.bucket
+    if rss.isEmpty && old.isEmpty then .quiet st
     else
-      let old := st.book.keys
       seqOut (blobRemove e.rej st (rss.map (·.1)) old) (fun st' => blobApply e.rej old st' rss)
 
 /-! ## kubernetes (informer + `filter`, `addRuleSet`, `updateRuleSet`, `deleteRuleSet`) -/
